@@ -746,11 +746,6 @@ kani("models::quantizer_search_i8_mid", ["C03", "C10", "C20"], kind="bounded", b
 kani("models::entropy_is_finite_u8_p8", ["C18"], kind="bounded", bound="uniform models with 2..3 symbols, u8, P = 8 = Probability::BITS; CBMC's log2 model", timeout=1200,
      fns=[M + "model.rs::IterableEntropyModel::entropy_base2"],
      text="sanity contract only: entropy_base2 is finite and within [0, P] (the exact value is not decided: transcendental)")
-kani("models::same_named_float_constructors_normalization_p4", ["C05", "C19"], kind="bounded", bound="one concrete weight table [1,3,2,0] (trailing zero entry), u8, P = 4, normalization in {None, 6, 8, 12}; every symbol, every quantile", timeout=900,
-     fns=[M + "categorical.rs::fast_quantized_cdf", M + "categorical/contiguous.rs::ContiguousCategoricalEntropyModel::from_floating_point_probabilities_fast",
-          M + "categorical/lazy_contiguous.rs::LazyContiguousCategoricalEntropyModel::{from_floating_point_probabilities_fast,left_cumulative_and_probability,quantile_function}",
-          M + "categorical/lookup_contiguous.rs::ContiguousLookupDecoderModel::from_floating_point_probabilities_fast"],
-     text="eager, lazy and lookup models built by the same-named float constructor from the SAME (weights, normalization) are the same fixed-point model, also for a caller-provided normalization larger than the sum")
 kani("models::diagnostics_concrete_u8_p8", ["C18"], kind="bounded", bound="one concrete model (UniformModel<u8,8>::new(3): 85/256, 85/256, 86/256, PRECISION == Probability::BITS), reference distributions [1/2,1/4,1/4], [0,0,1], [1,1e-310,0]; f64; CBMC's log2 model; tolerance 1e-6", timeout=900,
      fns=[M + "model.rs::IterableEntropyModel::{entropy_base2,cross_entropy_base2,reverse_cross_entropy_base2,kl_divergence_base2,reverse_kl_divergence_base2}", M + "uniform.rs::<UniformModel as IterableEntropyModel>::symbol_table"],
      text="entropy, cross entropy, KL in both directions == textbook definitions on the exact fixed-point probabilities (unequal bins; exact zeros contribute nothing; a subnormal entry stays finite)")
